@@ -291,7 +291,7 @@ def thin_tape(hexs):
 class C01:
     ID = "C01"
     LEVEL = "exploration"
-    TIMEOUT = 60.0
+    TIMEOUT = 40.0
     RULE = ("case = generated heap-shape program: 3-9 gadgets, each either a retention chain root -> e1..e4 -> target (19 edge kinds "
             "x 17 target kinds x 18 root kinds; the chain is the only path to the target; allocation churn between building and "
             "reading it back) or one of 39 operations that make the interpreter hold fresh unreferenced objects mid-operation "
